@@ -247,7 +247,7 @@ pub fn run(tier: Tier) -> CheckResult {
     let mut cases: Vec<Case> = vec![];
     let fillers = [RTy::prim("i32"), RTy::named("Other")];
     for (si, src) in SOURCES.iter().enumerate() {
-        let types = gen::enumerate_spines(&[RTy::named(src)], &fillers, if tier == Tier::Quick { 1 } else { 2 });
+        let types = gen::enumerate_spines(&[RTy::named(src)], &fillers, if tier == Tier::Quick { 2 } else { 3 });
         for (ti, t) in types.iter().enumerate() {
             for s in SITES {
                 for zod in [false, true] {
